@@ -69,6 +69,15 @@ def run(c):
     # ---------------------------------------------------------------- k-process validation
     impl = c.cargo_build("names-run")
     if not impl: return
+    impl = os.environ.get("VERIF_NAMES_RUN", impl)      # replay against a patched copy of the generators
+    # pin the binary for this run: a concurrent `cargo build` (other checks, a changed /repo) must not
+    # swap the generators between two of the k processes
+    import shutil, atexit
+    pinned = os.path.join(VERIF, ".build", "run", f"names-run-C15-{os.getpid()}")
+    os.makedirs(os.path.dirname(pinned), exist_ok=True)
+    shutil.copy2(impl, pinned)
+    atexit.register(lambda: os.path.exists(pinned) and os.remove(pinned))
+    impl = pinned
     k = 3 if c.tier == "quick" else 12
     inputs = []          # (id, class, input token, source text / path)
     cp = os.path.join(VERIF, "corpus", "C15.jsonl")
@@ -113,9 +122,18 @@ def run(c):
         for start, runs in ex.map(work, chunks):
             for off in range(len(runs[0])):
                 results[start + off] = [r[off] for r in runs]
+    # a `timeout` / `crash` answer under machine load is the harness's, not the generator's: ask again, alone
+    retried = 0
+    for idx, answers in enumerate(results):
+        for j, a in enumerate(answers):
+            if a in ("timeout", "crash"):
+                retried += 1
+                answers[j] = run_proc([impl, "determ"], [reqs[idx]], pads[j % len(pads)], 600)[0]
+    c.cov["harness_retries"] = retried
     status = collections.Counter()
     ndiff = collections.Counter()
     files_compared = 0
+    harness_timeouts = 0
     st = c.corr.setdefault("k-process-diff", {"cases": 0, "mismatches": 0, "first_mismatches": []})
     for (iid, b, v, src, tok), answers in zip(meta, results):
         st["cases"] += 1; c.evaluations += 1
@@ -126,6 +144,9 @@ def run(c):
             files_compared += (len(a0.split(" ")) - 1) * k
             c.nontrivial.add(hashlib.sha1(f"{iid}\0{b}\0{v}".encode()).hexdigest())
         if all(a == a0 for a in answers):
+            continue
+        if any(a == "timeout" for a in answers):
+            harness_timeouts += 1       # still no answer within 10 minutes for one request: not a verdict
             continue
         # something differs
         if not all(a.split(" ")[0] == kind for a in answers) or kind != "ok":
@@ -155,6 +176,9 @@ def run(c):
         c.spec_violation(klass, what, {"backend": b, "variant": v, "input": iid, "wit": wit, "files": differing[:6], "k": k,
                                        "replay_note": "names-run determ, k separate processes"})
     c.cov["processes_per_case"] = k
+    c.cov["harness_timeouts_excluded"] = harness_timeouts
+    if harness_timeouts > len(reqs) // 100 + 1:
+        c.broken.append(("k-process run: too many requests without an answer", f"{harness_timeouts} of {len(reqs)}"))
     c.cov["generator_status"] = dict(sorted(status.items()))
     c.cov["files_compared"] = files_compared
     c.cov["differences_by_class"] = dict(ndiff)
